@@ -204,7 +204,7 @@ def body(ctx: C.Ctx, proof: C.ProofStatus) -> C.Result:
     import multiprocessing as mp
 
     res = C.Result()
-    ndirs = ctx.scale(6, 40)
+    ndirs = ctx.scale(6, 24)
     torn = [] if ctx.tier == "quick" else [0.0, 0.5]
     full = ctx.tier != "quick"
     nchunks = 3
